@@ -624,9 +624,15 @@ class ArgumentParser(ParserDeprecations, ActionsContainer, ArgumentLinking, argp
         Raises:
             ArgumentError: If the parsing fails error and exit_on_error=True.
         """
-        fpath = Path(cfg_path, mode=get_config_read_mode())
+        try:
+            fpath = Path(cfg_path, mode=get_config_read_mode())
+        except (TypeError, ValueError) as ex:
+            self.error(str(ex), ex)
         with change_to_path_dir(fpath):
-            cfg_str = fpath.get_content()
+            try:
+                cfg_str = fpath.get_content()
+            except ValueError as ex:  # UnicodeDecodeError: the file is not text
+                self.error(f"Problems reading {cfg_path}: {ex}", ex)
             parsed_cfg = self.parse_string(
                 cfg_str,
                 os.path.basename(cfg_path),
